@@ -1,4 +1,5 @@
 """C09 -- Hashtable behaves as an ordered map and its iterators survive any mutation (util/Hashtable.h)."""
+import os
 import vlib
 
 KEYS = [0, 1, 2, 3, 4, 5, 6, 7, 8, 9, 10, 11, -1, -2, 14, 17, 20, 23]
@@ -338,6 +339,13 @@ def store_width_case(rng, hm):
     return "S%d,%d|%s" % (hm, rng.choice([0, 200, 254, 255]), ";".join(ops))
 
 
+def owning(case):
+    """the same script for the tables instantiated with the owning type: P/K/V/S -> p/k/v/s (behind the B of a big case)"""
+    if case[0] == "B":
+        return "B" + case[1].lower() + case[2:]
+    return case[0].lower() + case[1:]
+
+
 class CHECK(vlib.Check):
     prop = "C09"
     prop_file = "Properties_C09.v"
@@ -378,7 +386,8 @@ class CHECK(vlib.Check):
                 "a reordering operation (it moves the entry twice: C09_traversal_semantic_refuted) unless it changes nothing; the harness oracle "
                 "evaluates the same semantic condition on the implementation"]
     rule = ("operation scripts over 1-3 tables of one class (Hashtable / OrderedKeysHashtable / OrderedValuesHashtable <int,int>, default or "
-            "colliding hash functor) and up to 5 HashtableIterators, from random.Random(seed); after EVERY operation the result, every "
+            "colliding hash functor; int keys and values, and -- every third script again -- an owning key/value type whose move empties its "
+            "source) and up to 5 HashtableIterators, from random.Random(seed); after EVERY operation the result, every "
             "table's order read through the next links (and cross-checked through the prev links), count, capacity, auto-sort flag, "
             "registered-iterator list and every iterator's owner/cookie/flags/scratch are compared with the extracted L1 model (storage "
             "scripts: the whole slot array, free-list head, count and index width with the extracted storage model); the "
@@ -407,11 +416,19 @@ class CHECK(vlib.Check):
             out.append(("store-width", store_width_case(rng, (0, 2, 1)[i % 3] if i % 3 != 2 or tier != "quick" else 0)))
         for i in range(1 if tier == "quick" else 3):
             out.append(("big", big_case(rng, "PKV"[i % 3], 1 if i == 4 else 0)))
-        return out
+        # the same scripts on tables with an owning key and value type whose move empties the source (struct Own in the
+        # harness; lower-case class letter): every directed / grow / store-width case, and every third case of the other streams
+        own = []
+        cnt = {}
+        for (stream, c) in out:
+            cnt[stream] = cnt.get(stream, 0) + 1
+            if stream in ("directed", "grow", "store-width") or cnt[stream] % 3 == 0:
+                own.append((stream + "-own", owning(c)))
+        return out + own
 
     def nontrivial(self, case):
         body = case.split("|", 1)[1]
-        if case.startswith("S"):
+        if case[0] in "Ss":
             return "sr:" in body and body.count("sp:") >= 3
         if "fill:" in body or ":254:" in body or ":65535:" in body:
             return True
